@@ -285,17 +285,17 @@ def eval_with_hint(ev: Ev, node: ast.expr, target: ast.expr) -> Val:
 
 
 # ------------------------------------------------------------------------------------------- loops
-def clause_terms(eng: Engine, fn: FnCtx, st: State, clauses: list[str], old: State | None = None) -> list[tuple[str, Any]]:
+def clause_terms(eng: Engine, fn: FnCtx, st: State, clauses: list[str], old: State | None = None, prev: State | None = None) -> list[tuple[str, Any]]:
 	out = []
 	for c in clauses:
-		ev = Ev(eng, fn, st, Oracle([]), 'spec', old)
+		ev = Ev(eng, fn, st, Oracle([]), 'spec', old, None, prev)
 		out.append((c, ev.truth(ast.parse(c, mode='eval').body)))
 	return out
 
 
-def run_hints(eng: Engine, fn: FnCtx, st: State, hints: list[str], old: State | None = None) -> None:
+def run_hints(eng: Engine, fn: FnCtx, st: State, hints: list[str], old: State | None = None, prev: State | None = None) -> None:
 	for h in hints:
-		ev = Ev(eng, fn, st, Oracle([]), 'spec', old)
+		ev = Ev(eng, fn, st, Oracle([]), 'spec', old, None, prev)
 		ev.eval(ast.parse(h, mode='eval').body)
 
 
@@ -304,16 +304,87 @@ def loop_spec(fn: FnCtx, node: ast.AST) -> Loop | None:
 	if fn.contract is None or k is None:
 		return None
 	# loops of inlined helpers are annotated in the helper's own (inline_only) contract
+	if not fn.contract.inline_only:
+		return fn.contract.loops.get(k)
 	own = REG.contracts.get((fn.src.file, fn.src.qualname)) if fn.src else None
 	if own is not None and k in own.loops:
 		return own.loops[k]
 	return fn.contract.loops.get(k)
 
 
-def havoc(eng: Engine, st: State, names: set[str]) -> None:
+def modified_fields(fn: FnCtx, body: list[ast.stmt], var: str, depth: int = 0) -> set[str] | None:
+	"""Fields of the record variable `var` that `body` may change (None = unknown: all of them)."""
+	out: set[str] = set()
+
+	def field_of(t: ast.expr) -> str | None:
+		# var.f, var.f[k], var.f.g ... -> f
+		chain = []
+		while isinstance(t, (ast.Attribute, ast.Subscript)):
+			if isinstance(t, ast.Attribute):
+				chain.append(t.attr)
+			t = t.value
+		if isinstance(t, ast.Name) and t.id == var and chain:
+			return chain[-1]
+		return None
+
+	for stt in body:
+		for n in ast.walk(stt):
+			targets: list[ast.expr] = []
+			if isinstance(n, ast.Assign):
+				targets = list(n.targets)
+			elif isinstance(n, (ast.AugAssign, ast.AnnAssign)):
+				targets = [n.target]
+			elif isinstance(n, ast.Delete):
+				targets = list(n.targets)
+			for t in targets:
+				if isinstance(t, ast.Name) and t.id == var:
+					return None
+				f = field_of(t)
+				if f:
+					out.add(source.mangle(fn.cname, f))
+			if isinstance(n, ast.Call) and isinstance(n.func, ast.Attribute):
+				recv = n.func.value
+				if isinstance(recv, ast.Name) and recv.id == var and fn.src is not None:
+					name = n.func.attr
+					cls = fn.cname if (name.startswith('__') and not name.endswith('__')) else (fn.dyn or fn.cname)
+					m = source.find_method(fn.src.file, cls, name) if cls else None
+					if m is None:
+						return None
+					c = (REG.contracts.get((m.file, f'{m.qualname}@{fn.dyn}')) if fn.dyn else None) or REG.contracts.get((m.file, m.qualname))
+					if c is not None and not c.inline_only:
+						sp = m.node.args.args[0].arg if m.node.args.args else 'self'
+						for mm in c.modifies:
+							if mm == sp:
+								return None
+							if mm.startswith(sp + '.'):
+								out.add(source.mangle(m.qualname.rsplit('.', 1)[0], mm[len(sp) + 1:]))
+					else:
+						if depth > 3:
+							return None
+						sub = FnCtx(fn.eng, m, None, fn.prop)
+						sub.dyn = fn.dyn
+						sp = m.node.args.args[0].arg if m.node.args.args else 'self'
+						r = modified_fields(sub, m.node.body, sp, depth + 1)
+						if r is None:
+							return None
+						out |= r
+				else:
+					f = field_of(recv)
+					if f and n.func.attr in ('append', 'pop', 'extend', 'insert', 'clear', 'update', 'remove'):
+						out.add(source.mangle(fn.cname, f))
+	return out
+
+
+def havoc(eng: Engine, st: State, names: set[str], fn: FnCtx | None = None, body: list[ast.stmt] | None = None) -> None:
 	for v in names:
 		cur = st.env.get(v)
 		if cur is not None and cur.ty is not None and cur.term is not None:
+			if isinstance(cur.ty, TRec) and fn is not None and body is not None:
+				flds = modified_fields(fn, body, v)
+				if flds is not None:
+					terms = [z3.Const(fresh_name(f'{v}_{f}'), cur.ty.fty(f).sort()) if f in flds else cur.ty.get(cur.term, f) for f in cur.ty.fnames()]
+					st.env[v] = Val(cur.ty, cur.ty.mk(*terms))
+					continue
 			st.env[v] = eng.fresh(cur.ty, v)
 
 
@@ -331,7 +402,7 @@ def cut_loop(eng: Engine, fn: FnCtx, lineno: int, spec: Loop, st: State, body: l
 		eng.oblige(fn, 'inv-init', st, t, c, lineno)
 	mods = assigned_vars(body, lambda call: mutating_call(fn, call)) | (extra_mods or set())
 	st2 = st.copy()
-	havoc(eng, st2, mods)
+	havoc(eng, st2, mods, fn, body)
 	for al, srcname in (aliases or {}).items():
 		if srcname in st2.env:
 			st2.env[al] = st2.env[srcname]
@@ -367,8 +438,8 @@ def cut_loop(eng: Engine, fn: FnCtx, lineno: int, spec: Loop, st: State, body: l
 							if k1 == 'raise':
 								yield ('raise', r1, s1)
 								continue
-							run_hints(eng, fn, s1, spec.hints_end, sb)
-							for cl, t in clause_terms(eng, fn, s1, spec.invariant, sb):
+							run_hints(eng, fn, s1, spec.hints_end, None, sb)
+							for cl, t in clause_terms(eng, fn, s1, spec.invariant, None, sb):
 								eng.oblige(fn, 'inv-pres', s1, t, cl, lineno)
 							if v0 is not None:
 								v1 = Ev(eng, fn, s1, Oracle([]), 'spec').eval(ast.parse(spec.decreases, mode='eval').body).term  # type: ignore[arg-type]
